@@ -10,8 +10,10 @@ Inductive val := VInt (z : Z) | VFloat (f : float) | VNone | VRef (a : nat).
 Inductive obj := OList (l : list val) | ODict (d : list (string * val)).
 Definition heap := list obj.
 
+(** what a KeyError was about (Python only says KeyError; the model keeps the cause for the theorems) *)
+Inductive keykind := KReg | KVar | KGlobal | KBlock | KFunc | KMember.
 Inductive errkind :=
-  | EZeroDiv | EIndex | EKey | EType | EAssert | EICE | EAttr | EValue | EOverflow | EUnhandledOpcode.
+  | EZeroDiv | EIndex | EKey (k : keykind) | EType | EAssert | EICE | EAttr | EValue | EOverflow | EUnhandledOpcode.
 
 (** outcome of a partial operation: a value, a Python exception, or a case this model does not describe *)
 Inductive res (A : Type) := Ok (a : A) | Err (e : errkind) | Unmodelled.
